@@ -132,6 +132,9 @@ enum Op {
     Opt(u16, Vec<(u16, usize)>, Vec<HdrSet>),
     /// The sink gets more room (as after the caller grew the buffer).
     Heal(usize),
+    /// Header flags set through `header_mut()`: AA, TC, RD, RA, AD, CD (bits
+    /// 0-5). They stay as set whatever is pushed, refused or rolled back.
+    Flags(u8),
 }
 
 fn names() -> Vec<String> {
@@ -439,6 +442,8 @@ struct Model {
     opt: Option<OptView>,
     /// The message header's rcode bits (survive rewinds).
     rcode_low: u16,
+    /// The header flags last set (AA, TC, RD, RA, AD, CD as bits 0-5).
+    flags: u8,
 }
 
 fn expected_view(pool: &[String], m: &Model) -> (Vec<(String, Rtype, u16)>, Vec<(u8, String, Rtype, u32, String)>) {
@@ -636,6 +641,17 @@ fn execute<T: Composer>(pool: &[String], ops: &[Op], ctl: &SinkCtl, stream: bool
             Op::SetLimit(l) => st.mb().set_push_limit(*l),
             Op::ClearLimit => st.mb().clear_push_limit(),
             Op::Heal(extra) => ctl.cap.set(ctl.cap.get() + extra),
+            Op::Flags(f) => {
+                let h = st.mb().header_mut();
+                h.set_aa(f & 1 != 0);
+                h.set_tc(f & 2 != 0);
+                h.set_rd(f & 4 != 0);
+                h.set_ra(f & 8 != 0);
+                h.set_ad(f & 16 != 0);
+                h.set_cd(f & 32 != 0);
+                model.flags = *f;
+                sim::stat("probe.header_flags_set");
+            }
             Op::Opt(size, opts, hdr) => {
                 if let Stage::Ad(b) = &mut st {
                     if model.opt.is_none() {
@@ -722,6 +738,12 @@ fn execute<T: Composer>(pool: &[String], ops: &[Op], ctl: &SinkCtl, stream: bool
                     return None;
                 }
                 Ok((aq, ar, aopt, counts, hdr_rcode)) => {
+                    let v = dns::view(msg).expect("parsed above");
+                    let got_flags = (v.aa as u8) | (v.tc as u8) << 1 | (v.rd as u8) << 2 | (v.ra as u8) << 3 | (v.ad as u8) << 4 | (v.cd as u8) << 5;
+                    if got_flags != model.flags {
+                        sim::violation(P, if failed { "failed-push-atomic" } else { "parse-back" }, format!("header-flags/{}", label), format!("after op #{} {:?} (failed={}): the header flags (AA TC RD RA AD CD) read {:06b}, last set {:06b}", i, op, failed, got_flags, model.flags));
+                        return None;
+                    }
                     if hdr_rcode != model.rcode_low {
                         sim::violation(P, "parse-back", format!("header-rcode/{}", label), format!("after op #{} {:?} (failed={}): the header's rcode reads {}, last successfully set {}", i, op, failed, hdr_rcode, model.rcode_low));
                         return None;
@@ -818,6 +840,7 @@ fn gen_ops(pool: &[String], size_class: u64) -> Vec<Op> {
                 ops.push(Op::Opt(*sim::pick("ops.opt_size", &[1232u16, 512, 4096]), opts, hdr));
             }
             6 => ops.push(Op::Heal(1 + sim::draw("ops.heal", 300) as usize)),
+            9 if sim::chance("ops.flags", 1, 2) => ops.push(Op::Flags(sim::draw("ops.flag_bits", 64) as u8)),
             _ => {
                 if section == 0 {
                     if sim::chance("ops.leave_question", 1, 3) {
